@@ -604,6 +604,18 @@ class Builtins:
         """Evaluate the element expression of a single-generator comprehension for a generic index j of an
         abstract source list.  Returns (src, j, value, new_assumptions, fresh_consts, filters)."""
         cx = self.cx
+        if len(comp.generators) == 2:
+            # [... for c in <containers> for t in c.get_trees()]: the trees of a container list that is tracked by the sequence
+            # it flattens to, in order (exact: that sequence is defined as this concatenation)
+            g1, g2 = comp.generators
+            it2 = g2.iter
+            if (not g1.ifs and isinstance(g1.target, ast.Name) and isinstance(it2, ast.Call) and not it2.args and not it2.keywords
+                    and isinstance(it2.func, ast.Attribute) and it2.func.attr == "get_trees" and isinstance(it2.func.value, ast.Name)
+                    and it2.func.value.id == g1.target.id):
+                src1 = self.it.ev(g1.iter, fr)
+                if isinstance(src1, SList) and "flat" in src1.ghost and "flat_make" in src1.ghost:
+                    return ("abstract", src1.ghost["flat_make"](src1.ghost["flat"]), g2)
+                raise Unsupported("trees of a container list that is not tracked by its flattening")
         if len(comp.generators) != 1:
             raise Unsupported("comprehension with several generators over abstract sequences")
         g = comp.generators[0]
@@ -777,6 +789,15 @@ class Builtins:
             out.ghost["rec_fields"] = fields
             out.ghost["rec_other"] = other
             out.elem = lambda k, out=out: L.rec_elem(cx, out, k)
+            # objects with an identity: the list also stands for the sequence of these identities
+            vid = getattr(val, "ident", None)
+            if vid is not None and z3.is_expr(vid) and vid.sort() == z3.IntSort():
+                W = z3.Const(cx._name("mapped"), z3.SeqSort(z3.IntSort()))
+                k = z3.Int(cx._name("mk"))
+                nlen = to_term_int(length)
+                cx.assume(z3.Length(W) == nlen)
+                cx.assume(z3.ForAll([k], z3.Implies(z3.And(k >= 0, k < nlen), W[k] == at(vid, k))))
+                out.ghost["seq"] = W
             # [Cls(x) for x in <sequence of identities>]: a wrapper object per element, like map(Cls, seq)
             if "seq" in src.ghost and len(val.fields) == 1:
                 (only,) = val.fields.values()
